@@ -8,6 +8,7 @@ import (
 	"context"
 	"errors"
 	"fmt"
+	"sort"
 	"strings"
 	"sync"
 	"testing"
@@ -376,7 +377,13 @@ func TestVerif_C13(t *testing.T) {
 		deadline := time.After(c13Wait)
 	drain:
 		for {
-			for s, c := range h.pending {
+			var late []string
+			for s := range h.pending {
+				late = append(late, s)
+			}
+			sort.Strings(late) // never depend on map iteration order
+			for _, s := range late {
+				c := h.pending[s]
 				var rerr error
 				if lateOK[li%len(lateOK)] == 0 {
 					rerr = errors.New("injected late failure")
